@@ -1,12 +1,27 @@
 """C34 repair packs and repair snapshots salvage all intact data."""
+import json, os
 from concurrent.futures import ThreadPoolExecutor
 from props import repo_common
 
 
 def run(ctx):
+    # the design-model runs (RepoRepair.tla twins) do not depend on the driver: run them beside it
     with ThreadPoolExecutor(1) as ex:
         fut = ex.submit(repo_common.repair_design_runs, ctx)
         # zz_verif_c03_shared_test.go provides vCraftSharedChunks (files that share blobs); the c03 driver needs the c09 files
         out = ctx.go_test("cmd/restic", "^TestVerif_C34$", timeout=3300, tags=["c34", "common", "c03", "c09"])
         design = fut.result()
-    return repo_common.finish_trace(ctx, out, "model_checking", extra_cov={"design_model_runs": design})
+    # every reachable file of every snapshot: content after `repair snapshots` = content before minus the
+    # unavailable entries (Fn_RepairFiles.tla)
+    n, bad, lines = ctx.check_records("Fn_RepairFilesRec", os.path.join(out, "recs.ndjson"), shard=4000)
+    for i in bad[:100]:
+        r = json.loads(lines[i - 1])
+        what = "file-vanished" if not r["present"] else "file-content-is-not-original-minus-unavailable-entries"
+        ctx.violate("repair-snapshots/%s" % what,
+                    "scenario %s snapshot %s file %s: content before %s available %s indexed %s; after `repair snapshots`: %s" % (
+                        r["scenario"], r["snap"], r["path"], r["before"], r["ok"], r["idx"],
+                        r["after"] if r["present"] else "file is gone"), r)
+    return repo_common.finish_trace(ctx, out, "model_checking",
+                                    extra_cov={"design_model_runs": design, "file_records_judged_by_Fn_RepairFilesRec": n},
+                                    assumptions=["an entry of a file counts as available when the repository (after `repair packs`) can load the blob and the hash matches; which blobs of a damaged pack are still readable is decided by the harness by decrypting and hashing the stored bytes",
+                                                 "a wrong index entry that makes two blobs of a pack overlap is not generated (restic aborts `repair packs` with 'overlapping blobs' before it looks at the pack header; nothing is removed then)"])
